@@ -1033,6 +1033,14 @@ class DataSourceMetadataSource(MetadataSource):
         self.data_source.output(
             metadata_key, io.BytesIO(bytes() if stored_with_data else value)
         )
+        # The key may have been written before in the other form (in the metadata store rather
+        # than with the data, or vice versa). That entry is superseded: left in place, the one in
+        # the metadata store would be read in preference to the newer one stored with the data.
+        superseded_key = DataSourceMetadataSource._get_metadata_key(
+            fn_with_arg_hash, key, not stored_with_data
+        )
+        if self.data_source.exists_nonversioned(superseded_key):
+            self.data_source.delete_all_versions(superseded_key, False)
 
     def forget_call(self, fn_with_arg_hash: FunctionReferenceWithArgHash):
         call_path_prefix = DataSourceMetadataSource._get_path(
